@@ -23,8 +23,9 @@ def check_table(res, repo):
     imap = repo.indicator_map()
     settings = repo.method("hexital.core.indicator", "Indicator", "settings")
     # the writer: {"indicator": self._name if self._name else type(self).__name__}
-    txt = ast.unparse(settings.node)
-    if "self._name if self._name else type(self).__name__" not in txt:
+    from ..structure import canon_ifexp
+
+    if not any(canon_ifexp(e) == ("self._name", "self._name", "type(self).__name__") for e in ast.walk(settings.node) if isinstance(e, ast.IfExp)):
         res.errors.append("Indicator.settings no longer emits `self._name if self._name else type(self).__name__` (writer of the table changed; re-derive the rule)")
     for ci in repo.shipped():
         if ci.name == "Amorph":
@@ -131,7 +132,10 @@ def check_binding(res, repo, prop="C08", raw_required=True):
             res.ok(rule, {"site": vi.where, "kw": f"{k}={v}"})
         else:
             res.fail(rule, finding(prop, rule, vi, c, f"a timeframe manager must be created with the Hexital-level {k} ({v})", construct=f"CandleManager kw {k}={kws.get(k)}"))
-    if "timeframe" in kws and kws["timeframe"].startswith(f"{lv}.timeframe"):
+    from ..structure import canon_ifexp
+
+    tfv = next((k.value for k in c.keywords if k.arg == "timeframe"), None)
+    if tfv is not None and (ast.unparse(tfv) == f"{lv}.timeframe" or (isinstance(tfv, ast.IfExp) and canon_ifexp(tfv)[:2] == (f"{lv}.timeframe", f"{lv}.timeframe"))):
         res.ok(rule, {"site": vi.where, "kw": f"timeframe={kws['timeframe']}"})
     else:
         res.fail(rule, finding(prop, rule, vi, c, "the new manager must collapse to the indicator's timeframe", construct=f"CandleManager kw timeframe={kws.get('timeframe')}"))
